@@ -478,7 +478,7 @@ def exponents(tier):
 
 def check_exp(rep, mod, tier):
     # every overload named Goldilocks::exp (found by name: the base may be taken by value or by reference)
-    names = mod.find_re(r'^Goldilocks::exp\(')
+    names = harness.family(mod, r'^Goldilocks::exp\(')
     if not names:
         rep.incomplete('exp', 'exp-bounded-exponents', '', 'no Goldilocks::exp overload found')
     first = None
